@@ -224,6 +224,17 @@ class Operation(ABC):
                 if backed_grad.dtype != var.dtype:
                     backed_grad = backed_grad.astype(var.dtype, copy=False)
 
+                if (
+                    backed_grad.ndim > 1
+                    and backed_grad.flags.c_contiguous != var.data.flags.c_contiguous
+                ):
+                    # Store the gradient in the memory layout of the tensor's data, so
+                    # that a view-op replayed on the gradient produces a view exactly
+                    # when it does so on the data (see `Tensor.grad`)
+                    _grad = np.empty_like(var.data)
+                    _grad[...] = backed_grad
+                    backed_grad = _grad
+
                 var._grad = backed_grad
             else:
                 var._grad += backed_grad
